@@ -145,4 +145,15 @@ CLAIMED["C11"] = dict(
     technique="TLA+ protocol spec + TLC invariant + stateful TLC trace validation of a deterministic-issuance matrix and interop vectors",
     ref="5/C11")
 
+CLAIMED["C05"] = dict(
+    text="Batch.tla models the generic batch issuer as coded (per-slot fill loop: first issuer of the type with matching truncated "
+         "key id that evaluates successfully; present/absent encoding; list decoding; per-slot finalization) and TLC checks "
+         "CountAndOrder, PresentIff, PresentFinalizes and Isolation for every issuer configuration and request sequence up to "
+         "the bound, plus completion. Every behaviour TLC generates (5 configurations x all sequences of length 1..3, thorough 4, "
+         "over 6 request kinds) is executed on the real client / issuer / decoder / finalizers, both directly and with the batch "
+         "request marshalled and re-decoded, and TLC validates the recorded slots against the model.",
+    note="Failing issuers of a matching type and id are stubs of the Issuer interface; token validity as in C01.",
+    technique="TLA+ spec + TLC model checking + TLC-generated behaviours replayed on the real batch pipeline + TLC trace validation",
+    ref="5/C05")
+
 NOT_YET = "check not built yet in this round (see DESIGN.md section 11 for the build order); no claim is made"
